@@ -99,8 +99,7 @@ class C27(Prop):
                 if cmd[0] == "squeue":      # the command line is built (from _scheduled_jobs) before it runs
                     arg0 = cmd[cmd.index("-j") + 1]
                     w["log"].append(["lstart", [int(x) for x in arg0.split(",") if x]])
-                await real_sleep(0)
-                if "sbatch" in cmd:
+                if "sbatch" in cmd:         # two phases: the job is queued when sbatch runs, the reply comes later
                     j = w["next"]
                     w["next"] += 1
                     w["queue"].add(j)
@@ -110,7 +109,9 @@ class C27(Prop):
                     n = len(w["subm"])
                     w["rc"][j] = w["jobs"][n]["rc"] if n < len(w["jobs"]) else 0
                     w["subm"].append(j)
+                    await real_sleep(0)
                     return str(j), 0
+                await real_sleep(0)
                 if cmd[0] == "squeue":
                     arg = cmd[cmd.index("-j") + 1]
                     asked = [int(x) for x in arg.split(",") if x]
@@ -151,7 +152,7 @@ class C27(Prop):
                 super().__setitem__(k, v)
 
             def pop(self, k, *a):
-                prop.world["log"].append(["unrecord", int(k)])
+                prop.world["log"].append(["unrecord" if k in self else "pop-missing", int(k)])
                 return super().pop(k, *a)
 
         class LogCache(TTLCache):
@@ -160,6 +161,19 @@ class C27(Prop):
                 w["log"].append(["expire"] if w["expiring"] else ["clear", w["cur"]()])
                 return super().clear(*a, **k)
 
+        class Slurm(qm.SlurmConnector):
+            """`undeploy` ends with `self._scheduled_jobs = {}`: keep logging on the new dictionary"""
+            @property
+            def _scheduled_jobs(self):
+                return self.__dict__["_sj"]
+
+            @_scheduled_jobs.setter
+            def _scheduled_jobs(self, v):
+                d = LogDict()
+                dict.update(d, v)
+                self.__dict__["_sj"] = d
+
+        qm.Slurm = Slurm
         self.k = types.SimpleNamespace(asyncio=asyncio, qm=qm, Inner=Inner, LogDict=LogDict, LogCache=LogCache,
                                        Loc=ExecutionLocation, PickLoop=PickLoop, make_picker=make_picker,
                                        sleep0=lambda: real_sleep(0))
@@ -185,9 +199,8 @@ class C27(Prop):
         jobs = case["jobs"]
         self.world = w = {"log": [], "queue": set(), "next": 100, "rc": {}, "subm": [], "expiring": False,
                           "cur": None, "jobs": jobs}
-        conn = k.qm.SlurmConnector("slurm", "/nonexistent", connector=k.Inner(), service=None, pollingInterval=3600,
-                                   maxConcurrentJobs=10)
-        conn._scheduled_jobs = k.LogDict()
+        conn = k.qm.Slurm("slurm", "/nonexistent", connector=k.Inner(), service=None, pollingInterval=3600,
+                          maxConcurrentJobs=10)
         conn._jobs_cache = k.LogCache(maxsize=1, global_ttl=3600)
         inner_loc = k.Loc(name="node", deployment="inner")
         loc = k.Loc(name="node", deployment="slurm", wraps=inner_loc)
@@ -271,14 +284,28 @@ class C27(Prop):
         return obs
 
     # ------------------------------------------------------------------ oracle (from the property text)
+    MAX_WATCHDOG = 3        # worker-level kills tolerated per check before they become a verdict
+    MIN_JUDGED = 0.97       # (for the framework's floor on judged cases)
+
     def oracle(self, case, obs):
+        v = self._judge(case, obs)
+        return (v[0], v[2]) if v else None
+
+    def _judge(self, case, obs):
+        """(clause, input class, message) or None"""
         if obs.get("hang") is True and "rc" in obs:
-            return None     # the whole worker was killed by the shard watchdog (machine overload / import): no verdict
-                            # on this case; a case that hangs by itself is stopped by the per-case alarm ({"hang": true})
+            # the whole worker was killed by the shard watchdog (machine overload / import): no verdict on this case
+            # -- but only a few times per check
+            seen = self.__dict__.setdefault("_wd_seen", set())
+            seen.add(id(obs))
+            if len(seen) > self.MAX_WATCHDOG:
+                return ("harness-watchdog", "any", f"{len(seen)} cases lost to worker-level watchdog kills")
+            return None
         if "crash" in obs or obs.get("hang") is True or obs.get("overrun"):
-            return ("crash", f"harness-level crash/hang/overrun: {str(obs)[:300]}")
-        queue, idof, jobix, cancelled = set(), {}, {}, set()
-        undeploying = False
+            return ("crash", "any", f"harness-level crash/hang/overrun: {str(obs)[:300]}")
+        und = "with-undeploy" if case.get("undeploy") is not None else "no-undeploy"
+        queue, jobix, cancelled, recorded = set(), {}, set(), set()
+        undeploying = ended = False
         nsub = 0
         for pos, e in enumerate(obs["log"]):
             k = e[0]
@@ -287,45 +314,54 @@ class C27(Prop):
                 jobix[e[1]] = nsub
                 nsub += 1
             elif k == "record":
-                pass
+                recorded.add(e[1])
+            elif k == "unrecord":
+                recorded.discard(e[1])
             elif k == "leave":
                 queue.discard(e[1])
             elif k == "undeploy-start":
                 undeploying = True
                 still = set(queue)
+                still_rec = set(recorded)
             elif k == "cancel":
                 cancelled |= set(e[1])
                 for j in e[1]:
                     if j not in jobix:
-                        return ("undeploy-exact", f"scancel of {j}, which is not a job of this connector (position {pos})")
+                        return ("undeploy-exact", und, f"scancel of {j}, which is not a job of this connector (position {pos})")
                     queue.discard(j)
             elif k == "undeploy-error":
-                return ("undeploy-exact", f"undeploy() raised {e[1]}: {e[2]} (jobs queued when it started: "
-                                          f"{sorted(still)}, cancelled: {sorted(cancelled)})")
+                return ("undeploy-exact", und, f"undeploy() raised {e[1]}: {e[2]} (jobs queued when it started: "
+                                               f"{sorted(still)}, cancelled: {sorted(cancelled)})")
             elif k == "undeploy-end":
+                ended = True
+                recorded = set()
                 missed = sorted(still - cancelled)
                 if missed:
-                    return ("undeploy-exact", f"undeploy left jobs {missed} queued: they were queued when undeploy "
-                                              f"started and were not cancelled")
+                    cls = "unrecorded-at-undeploy" if not (set(missed) & still_rec) else und
+                    return ("undeploy-exact", cls, f"undeploy left jobs {missed} queued: they were queued when undeploy "
+                                                   f"started and were not cancelled (recorded then: {sorted(still_rec)})")
             elif k == "done":
                 _, i, r, out, rc = e
-                # which queue id belongs to job i: the i-th run() call's submission is identified by its output
                 if r != "ok":
+                    if r == "KeyError" and ended:
+                        return ("run-fails", "keyerror-after-undeploy",
+                                f"run() of job {i} raised KeyError: undeploy() replaced _scheduled_jobs by an empty "
+                                f"dictionary and the polling loop pops its id from it (log position {pos})")
                     if not undeploying:
-                        return ("run-fails", f"run() of job {i} raised {r} although nothing was undeployed")
-                    continue
+                        return ("run-fails", und, f"run() of job {i} raised {r} although nothing was undeployed")
+                    return ("run-fails", und, f"run() of job {i} raised {r} during undeploy (log position {pos})")
                 mine = obs_job_id(obs["log"], i)
                 if mine is None:
-                    return ("own-result", f"job {i} finished without a submission")
+                    return ("own-result", und, f"job {i} finished without a submission")
                 if mine in queue:
-                    return ("after-queue", f"run() of job {i} (queue id {mine}) returned while the job is still "
-                                           f"queued (log position {pos})")
+                    return ("after-queue", und, f"run() of job {i} (queue id {mine}) returned while the job is still "
+                                                f"queued (log position {pos})")
                 want_rc = case["jobs"][jobix[mine]]["rc"] if jobix[mine] < len(case["jobs"]) else None
                 if out != f"output-of-{mine}" or rc != want_rc:
-                    return ("own-result", f"job {i} (queue id {mine}) returned output {out!r} / exit code {rc}, its "
-                                          f"own are 'output-of-{mine}' / {want_rc}")
+                    return ("own-result", und, f"job {i} (queue id {mine}) returned output {out!r} / exit code {rc}, "
+                                               f"its own are 'output-of-{mine}' / {want_rc}")
         if obs["hang"]:
-            return ("hang", f"tasks {obs['hang']} never finish")
+            return ("hang", und, f"tasks {obs['hang']} never finish")
         return None
 
     # ------------------------------------------------------------------ model side
@@ -337,6 +373,8 @@ class C27(Prop):
             k = e[0]
             if k in ("submit", "record", "leave", "unrecord"):
                 evs.append(f"{EV[k]} {e[1]}")
+            elif k == "pop-missing":
+                evs.append(f"PopMissing {e[1]}")
             elif k == "clear":
                 j = obs_job_id(obs["log"], e[1])
                 if j is None:
@@ -356,14 +394,14 @@ class C27(Prop):
                 return None     # undeploy raised: outside the model (the oracle reports it)
             elif k == "undeploy-end":
                 evs.append("UndeployEnd")
-                break       # undeploy replaces _scheduled_jobs by a fresh dict: the instrumentation ends here
         return f"CTrace {coq_list(evs)}"
 
     def nontrivial(self, c):
         return len(c["jobs"]) >= 2 or c.get("undeploy") is not None
 
     def signature(self, c, o, clause):
-        return clause + ("/with-undeploy" if c.get("undeploy") is not None else "/no-undeploy")
+        v = self._judge(c, o)
+        return f"{v[0]}/{v[1]}" if v else clause
 
     def shrink(self, c):
         js = c["jobs"]
@@ -388,16 +426,22 @@ def obs_job_id(log, i):
 
 PROP = C27()
 PROP.LEVEL_TEXT = (
-    "Event-level transition system of QueueManagerConnector.run's polling protocol, the constant-key one-slot TTL cache, "
-    "job departure, TTL expiry and undeploy in Coq (Queue/Model.v). Proved by induction over ALL accepted event traces "
-    "(any number of jobs, any interleaving, any expiry pattern): a job's run() leaves its polling loop only when the job "
-    "is no longer queued, a finished job is never queued afterwards, every cached or in-flight listing contains every "
-    "recorded+cleared+still-queued job, undeploy cancels exactly the ids recorded when it started. PARTIAL: the rules of "
-    "the transition system (which events the code performs under which guards, in particular that the cache clear "
-    "happens under the lock with no squeue in flight) are tied to the code by checking that every trace of the real "
-    "SlurmConnector (fake sbatch/squeue/scontrol/scancel behind a fake inner connector, one-task-step-at-a-time seeded "
-    "event loop) is accepted rule by rule; they are not derived from a coroutine-level model. Own output/exit code "
-    "and undeploy exactness are additionally judged by the oracle on the real runs.")
+    "Two models in Coq. (1) Event level (Queue/Model.v): rules for submit/record/clear/listing/unrecord/leave/expire/"
+    "undeploy; proved by induction over ALL accepted traces (any number of jobs, any interleaving, any expiry pattern): "
+    "run() leaves its polling loop for a job only when the job is no longer queued, finished jobs are never queued, "
+    "every cached or in-flight listing contains every recorded+cleared+queued job, undeploy cancels exactly the recorded "
+    "snapshot. (2) Coroutine level (Queue/Coroutine.v): run()'s await points (submit call/reply, lock acquisition "
+    "before the cache clear and before each poll, squeue in flight with the lock held, polling sleep) as a transition "
+    "system over jobs, _scheduled_jobs, cache slot and lock holder; Queue/Refine.v proves that EVERY execution of it "
+    "emits a trace accepted by (1), so the guards of ClearBy (no squeue in flight), ListStart, Listing, Unrecord, "
+    "Record, Submit follow from the lock structure, and after_queue holds of every coroutine execution. PARTIAL: the "
+    "coroutine system is hand-written (no coroutine-level correspondence kind; asyncio.Lock abstracted to free/held; "
+    "undeploy and cachebox's inner lock outside it); the event rules are ALSO checked on every real trace of "
+    "SlurmConnector (fake sbatch[two-phase]/squeue/scontrol/scancel behind a fake inner connector, seeded "
+    "one-step-at-a-time loop), compared through the END of the trace including after undeploy. Two statements are "
+    "false of the code and carried as _refuted + known findings: a job submitted but not yet recorded survives "
+    "undeploy; run() raises KeyError after undeploy replaced _scheduled_jobs. Own output/exit code are judged by the "
+    "oracle only.")
 PROP.LEVEL_NOTE = (
     "Trusted: Coq kernel + vm_compute; the hand-written rules; the assumption that squeue -j lists exactly the asked ids "
     "still queued, ids are never reused and departed jobs do not return; cachebox, asyncio.Lock; instrumentation by "
